@@ -11,7 +11,7 @@ NG = 3      # gap parameters
 
 def setup():
     import supp.scope
-    supp.scope.SourceScope.find_id_loc = lambda self, id, start, shift=0, delimeters=True: start
+    supp.scope.SourceScope.find_id_loc = lambda self, id, start, shift=0, delimeters=True, **kw: start
 
 
 def sample_partitions(shape, k=3):
